@@ -13,6 +13,22 @@ Theorem C15_auto_traits_at_least_std :
             (table_impl MSync t = true -> std_auto MSync t = true).
 Proof. exact auto_at_least_std. Qed.
 
+
+(* the same for EVERY raw lock type the crate can be instantiated with (R: Send / Sync or not, R::GuardMarker: Send /
+   Sync or not), against lock_api's own rules: a *Ref guard may be sent only if R::GuardMarker: Send and the payload is
+   Send; the guards that carry the thread's key are never Send *)
+Theorem C15_auto_traits_at_least_reference :
+  forall rf t, (impl_auto auto_rules rf MSend t = true -> ref_auto rf MSend t = true) /\
+               (impl_auto auto_rules rf MSync t = true -> ref_auto rf MSync t = true).
+Proof. exact auto_at_least_ref. Qed.
+
+Example C15_guardsend_raw :
+  let rf := mkrf true true true true in
+  impl_auto auto_rules rf MSend (TCon "MutexRef" (TPay true false)) = true /\      (* lock_api: sendable guard *)
+  impl_auto auto_rules rf MSend (TCon "MutexGuard" (TPay true true)) = false /\    (* but not with the key inside *)
+  impl_auto auto_rules rf MSync (TCon "MutexRef" (TPay true false)) = false.
+Proof. vm_compute. auto. Qed.
+
 (* raw accessors, unchecked constructors and guard factories are unsafe or private; an owned collection gives no
    shared access to its members; a shared reference is never OwnedLockable *)
 Theorem C15_table_wf : wf_data_known = true.
@@ -59,3 +75,4 @@ Print Assumptions C15_auto_traits_at_least_std.
 Print Assumptions C15_table_wf.
 Print Assumptions C15_refuted_scoped_escape.
 Print Assumptions C15_ownedlockable_owns.
+Print Assumptions C15_auto_traits_at_least_reference.
